@@ -121,7 +121,8 @@ extern void (*vh_nested_hook)(scpi_t * context, int stage);
 /* called from inside the write / error callbacks of the capture interface: what an application does there (e.g. report a transport
  * problem with SCPI_ErrorPushEx while the library is in the middle of a response) */
 extern void (*vh_on_write_cb)(scpi_t * context, const char * data, size_t len);
-extern void (*vh_on_error_cb)(scpi_t * context, int err); /* generic instrumented handler */
+extern void (*vh_on_error_cb)(scpi_t * context, int err);
+extern void (*vh_on_flush_cb)(scpi_t * context); /* generic instrumented handler */
 /* second, unrelated context run on every n-th input call / handler entry (0 = off); see vh_scpi.c */
 void vh_decoy_enable(unsigned every);
 /* the first callback inside an input call overwrites the chunk that call was given (an application with one line buffer) */
